@@ -5,8 +5,13 @@ package deflate
 
 import (
 	"compress/flate"
+	"errors"
 	"io"
 )
+
+// errWriterClosed is the sticky state of a Writer after a successful Close
+// (compress/flate reports the same condition with the same text).
+var errWriterClosed = errors.New("flate: closed writer")
 
 type Writer struct {
 	err error
@@ -111,6 +116,9 @@ func (w *Writer) Flush() (err error) {
 }
 
 func (w *Writer) Close() (err error) {
+	if w.err == errWriterClosed {
+		return nil
+	}
 	if w.err != nil {
 		return w.err
 	}
@@ -118,5 +126,9 @@ func (w *Writer) Close() (err error) {
 		return w.w.Close()
 	}
 	w.err = w.lc.Close()
-	return w.err
+	if w.err != nil {
+		return w.err
+	}
+	w.err = errWriterClosed
+	return nil
 }
